@@ -150,13 +150,6 @@ theorem C20_deactivate_failure_source (env : Env) (hE : EnvOk env) (st : State) 
     (h : (deactivate env st).2 = some x) : ∃ rm ∈ env.real, rm.raises = some x :=
   (deactivate_spec env hE st hK).2.2.2.2.2.2.2.2.1 x h
 
-/-- is the configuration cleared even when a re-import raises?  (cleared first, or everything caught) -/
-def deactGuarded : List DeactStep → Bool
-  | [] => true
-  | .clearConfig :: _ => true
-  | .reimportCollected c :: rest => (c.contains .exception || c.contains .baseException) && deactGuarded rest
-  | _ :: rest => deactGuarded rest
-
 /-- the environment of this sandbox, reduced to what matters: `import pyspark` works,
     `import pyspark.testing` raises AttributeError (numpy 2: `np.NaN`) -/
 def sandboxEnv : Env :=
@@ -182,31 +175,26 @@ private theorem runCalls_deact (env : Env) (st : State) :
   cases h : deactivate env st with
   | mk s r => cases r <;> rfl
 
-/-- **C20_context (structure).** Leaving an `activate_context` block runs `deactivate()` exactly once —
-    on the normal path always, on the exception path iff the generated IR has the try/finally shape
-    (`H_ctxFinally`). -/
+/-- **C20_context (structure).** Leaving an `activate_context` block in a way whose handler / else / finally
+    contains `deactivate()` (`exitCleansUp k`, i.e. `H_ctxFinally` for that exit) runs `deactivate()` exactly once —
+    for the normal exit, an `Exception`, and a `BaseException` that is not an `Exception` alike. -/
 theorem C20_context_runs_deactivate (env : Env) (st : State) (n : Nat) (hc : st.ctx = n + 1) (k : ExitKind)
-    (h : ctxIR.fin.contains .deactivate = true ∨ k = .normal) :
+    (h : exitCleansUp k = true) :
     (ctxExit env k st).1 = (deactivate env { st with ctx := n }).1 := by
-  have hshape : (ctxIR.post = [.deactivate] ∧ ctxIR.fin = []) ∨ (ctxIR.post = [] ∧ ctxIR.fin = [.deactivate]) := by
-    decide
+  have hshape : ∀ k : ExitKind, exitCleansUp k = true →
+      (exitSegment ctxIR k = [.deactivate] ∧ ctxIR.fin = []) ∨ (exitSegment ctxIR k = [] ∧ ctxIR.fin = [.deactivate]) := by
+    intro k; cases k <;> decide
   unfold ctxExit
   simp only [hc]
-  cases k with
-  | normal =>
-    rcases hshape with ⟨h1, h2⟩ | ⟨h1, h2⟩
-    · simp only [h1, h2, runCalls_deact, runCalls_nil]
-    · simp only [h1, h2, runCalls_deact, runCalls_nil]
-  | exn =>
-    rcases hshape with ⟨_, h2⟩ | ⟨_, h2⟩
-    · rw [h2] at h; simp at h
-    · simp only [h2, runCalls_deact]
+  rcases hshape k h with ⟨h1, h2⟩ | ⟨h1, h2⟩
+  · simp only [h1, h2, runCalls_deact, runCalls_nil]
+  · simp only [h1, h2, runCalls_deact, runCalls_nil]
 
 /-- **C20_context (real pyspark absent).** If the block was entered (depth ≥ 1) and the exit kind is covered
     (`H_ctxFinally ∨ normal`), then after the exit no `pyspark*` entry and no stored configuration is left:
     the state of an interpreter in which sqlframe was never activated. -/
 theorem C20_context_partial (st : State) (hK : KeysOk st) (n : Nat) (hc : st.ctx = n + 1) (k : ExitKind)
-    (h : ctxIR.fin.contains .deactivate = true ∨ k = .normal) :
+    (h : exitCleansUp k = true) :
     (ctxExit Env.absent k st).1.mods = [] ∧ (ctxExit Env.absent k st).1.config = [] ∧
     (ctxExit Env.absent k st).1.ctx = n := by
   rw [C20_context_runs_deactivate Env.absent st n hc k h]
@@ -214,12 +202,17 @@ theorem C20_context_partial (st : State) (hK : KeysOk st) (n : Nat) (hc : st.ctx
   obtain ⟨_, h2, h3⟩ := C20_deactivate_absent _ hK'
   exact ⟨h2, h3, (deactivate_spec Env.absent envOk_absent _ hK').2.2.2.1⟩
 
-/-- **counterexample for H_ctxFinally.** `with activate_context("duckdb", conn=c1): raise RuntimeError`:
-    the exception skips `deactivate()`; the mock package, the redirected modules and the connection stay. -/
-theorem C20_cex_ctxFinally : ctxIR.fin.contains .deactivate = false →
-    let st := run Env.absent State.fresh [.ctxEnter (some "duckdb") (some 1) none, .ctxExit .exn]
+/-- the source as it stands cleans up on every kind of exit (fails to check when a kind is left uncovered) -/
+theorem C20_context_all_exits : ∀ k : ExitKind, exitCleansUp k = true := by intro k; cases k <;> decide
+
+/-- **counterexample for H_ctxFinally.** `with activate_context("duckdb", conn=c1): raise <k>` where the exit kind
+    `k` is not cleaned up: the exception skips `deactivate()`; the mock package, the redirected modules and the
+    connection stay.  (Vacuous while every exit kind is covered.) -/
+theorem C20_cex_ctxFinally : ∀ k : ExitKind, exitCleansUp k = false →
+    let st := run Env.absent State.fresh [.ctxEnter (some "duckdb") (some 1) none, .ctxExit k]
     aget st.mods "pyspark" = some .mock ∧ aget st.mods "pyspark.sql" = some (.pkg "duckdb") ∧
-    st.config = [("sqlframe.conn", .conn 1)] ∧ st.cur = some "duckdb" := by decide +kernel
+    st.config = [("sqlframe.conn", .conn 1)] ∧ st.cur = some "duckdb" := by
+  intro k; cases k <;> decide +kernel
 
 /-- **counterexample for H_ctxNotNested.** `activate("duckdb"); with activate_context("standalone"): pass`:
     the block's exit deactivates everything instead of restoring the duckdb activation. -/
